@@ -169,3 +169,582 @@ def combine_refinement(fine, fine_windows, coarse_windows, span_normalise):
         if span_normalise:
             out[i] = out[i] / (b - a)
     return out
+
+
+# ------------------------------------------------------------------ (B) summary functions of docs/stats.md
+def _div(a, b):
+    with np.errstate(divide="ignore", invalid="ignore"):
+        return np.asarray(a, dtype=float) / np.asarray(b, dtype=float)
+
+
+def summary_function(name, n, indexes=None, centre=True):
+    """(f, output_dim, degenerate) for the sample-count statistics exactly as printed in
+    docs/stats.md 'Summary functions'.  n = sample set sizes; indexes = list of k-tuples.
+    degenerate[c] is True when the printed formula of column c has a zero denominator."""
+    n = np.asarray(n, dtype=float)
+    idx = [tuple(t) for t in indexes] if indexes is not None else None
+
+    if name == "diversity":
+        return (lambda x: _div(x * (n - x), n * (n - 1))), len(n), n < 2
+    if name == "segregating_sites":
+        return (lambda x: (x > 0) * (1 - x / n)), len(n), np.zeros(len(n), dtype=bool)
+    if name == "Y1":
+        return (lambda x: _div(x * (n - x) * (n - x - 1), n * (n - 1) * (n - 2))), len(n), n < 3
+
+    def per_tuple(g, deg):
+        def f(x):
+            return np.array([g(x, t) for t in idx], dtype=float)
+
+        return f, len(idx), np.array([bool(deg(t)) for t in idx])
+
+    if name == "divergence":
+        def g(x, t):
+            i, j = t
+            if i == j:  # "unless the two indices are the same, when the diversity function is used"
+                return _div(x[i] * (n[i] - x[i]), n[i] * (n[i] - 1))
+            return x[i] * (n[j] - x[j]) / (n[i] * n[j])
+
+        return per_tuple(g, lambda t: t[0] == t[1] and n[t[0]] < 2)
+    if name == "genetic_relatedness":
+        if centre:
+            # m = mean over the sample sets of the frequency x_k / n_k (docs: "p-bar is the average
+            # derived allele frequency across sample sets"; docstring: S, T uniformly chosen sets)
+            def g(x, t):
+                mm = np.mean(x / n)
+                return (x[t[0]] / n[t[0]] - mm) * (x[t[1]] / n[t[1]] - mm)
+        else:
+            def g(x, t):
+                return (x[t[0]] / n[t[0]]) * (x[t[1]] / n[t[1]])
+        return per_tuple(g, lambda t: False)
+    if name == "Y2":
+        def g(x, t):
+            i, j = t
+            return _div(x[i] * (n[j] - x[j]) * (n[j] - x[j] - 1), n[i] * n[j] * (n[j] - 1))
+
+        return per_tuple(g, lambda t: n[t[1]] < 2)
+    if name == "f2":
+        def g(x, t):
+            i, j = t
+            d = n[i] * (n[i] - 1) * n[j] * (n[j] - 1)
+            return _div(x[i] * (x[i] - 1) * (n[j] - x[j]) * (n[j] - x[j] - 1), d) - _div(
+                x[i] * (n[i] - x[i]) * (n[j] - x[j]) * x[j], d)
+
+        return per_tuple(g, lambda t: n[t[0]] < 2 or n[t[1]] < 2)
+    if name == "Y3":
+        def g(x, t):
+            i, j, k = t
+            return x[i] * (n[j] - x[j]) * (n[k] - x[k]) / (n[i] * n[j] * n[k])
+
+        return per_tuple(g, lambda t: False)
+    if name == "f3":
+        def g(x, t):
+            i, j, k = t
+            d = n[i] * (n[i] - 1) * n[j] * n[k]
+            return _div(x[i] * (x[i] - 1) * (n[j] - x[j]) * (n[k] - x[k]), d) - _div(
+                x[i] * (n[i] - x[i]) * (n[j] - x[j]) * x[k], d)
+
+        return per_tuple(g, lambda t: n[t[0]] < 2)
+    if name == "f4":
+        def g(x, t):
+            i, j, k, l = t
+            d = n[i] * n[j] * n[k] * n[l]
+            return (x[i] * x[k] * (n[j] - x[j]) * (n[l] - x[l]) / d
+                    - x[i] * x[l] * (n[j] - x[j]) * (n[k] - x[k]) / d)
+
+        return per_tuple(g, lambda t: False)
+    raise AssertionError(name)
+
+
+ARITY = dict(diversity=1, segregating_sites=1, Y1=1, divergence=2, genetic_relatedness=2, Y2=2, f2=2,
+             Y3=3, f3=3, f4=4, Fst=2, Tajimas_D=1)
+
+
+def sample_count_named(spec, name, sets, indexes, windows, mode, span_normalise, polarised=False,
+                       centre=True):
+    n = [len(s) for s in sets]
+    f, m, deg = summary_function(name, n, indexes, centre)
+    W = indicator_weights(spec, sets)
+    out, _ = general_stat(spec, W, f, m, windows, mode, polarised, span_normalise)
+    return out, deg
+
+
+# ------------------------------------------------------------------ (C) enumeration of sample tuples
+def carrier_sets(spec, windows, mode, polarised):
+    """Yields (window, weight, frozenset of nodes 'inheriting'): site mode = one entry per allelic
+    state of every site (ancestral left out when polarised) with the nodes carrying it; branch mode =
+    one entry per branch (node with a parent) per tree-window overlap with the nodes at or below
+    it, plus the complementary node set when not polarised."""
+    n = len(spec["nodes"])
+    allnodes = frozenset(range(n))
+    if mode == "site":
+        for j, s in enumerate(spec["sites"]):
+            w = window_of(windows, F(s[0]))
+            if w < 0:
+                continue
+            par = model.parent_at(spec, F(s[0]))
+            al = [model.allele_at(spec, j, u, par) for u in range(n)]
+            for k, a in enumerate(site_states(spec, j)):
+                if polarised and k == 0:
+                    continue
+                yield w, 1.0, frozenset(u for u in range(n) if al[u] == a)
+    else:
+        for a, b, par in tree_intervals(spec):
+            ch = model.children_of(par)
+            for w in range(len(windows) - 1):
+                ov = overlap(a, b, windows[w], windows[w + 1])
+                if ov <= 0:
+                    continue
+                for u in range(n):
+                    if par[u] < 0:
+                        continue
+                    bl = model.time(spec, par[u]) - model.time(spec, u)
+                    B = frozenset(model.descendants(ch, u))
+                    yield w, bl * ov, B
+                    if not polarised:
+                        yield w, bl * ov, allnodes - B
+
+
+def _tuples(name, sets, t):
+    """Sample tuples averaged over by the docstrings (draws from the same argument position
+    of a statistic are without replacement)."""
+    if name == "diversity":
+        X = sets[t[0]]
+        return [(a, b) for a in X for b in X if a != b]
+    if name == "divergence":
+        if t[0] == t[1]:
+            X = sets[t[0]]
+            return [(a, b) for a in X for b in X if a != b]
+        return list(itertools.product(sets[t[0]], sets[t[1]]))
+    if name == "Y1":
+        X = sets[t[0]]
+        return [c for c in itertools.permutations(X, 3)]
+    if name == "Y2":
+        return [(a, b1, b2) for a in sets[t[0]] for b1, b2 in itertools.permutations(sets[t[1]], 2)]
+    if name == "Y3":
+        return list(itertools.product(sets[t[0]], sets[t[1]], sets[t[2]]))
+    if name == "f4":
+        return list(itertools.product(sets[t[0]], sets[t[1]], sets[t[2]], sets[t[3]]))
+    if name == "f3":  # (a1, b; a2, c)
+        return [(a1, b, a2, c) for a1, a2 in itertools.permutations(sets[t[0]], 2)
+                for b in sets[t[1]] for c in sets[t[2]]]
+    if name == "f2":  # (a1, b1; a2, b2)
+        return [(a1, b1, a2, b2) for a1, a2 in itertools.permutations(sets[t[0]], 2)
+                for b1, b2 in itertools.permutations(sets[t[1]], 2)]
+    raise AssertionError(name)
+
+
+def _pattern(name, tup, B):
+    if name in ("diversity", "divergence"):
+        a, b = tup
+        return float(a in B and b not in B)
+    if name in ("Y1", "Y2", "Y3"):
+        a, b, c = tup
+        return float(a in B and b not in B and c not in B)
+    a, b, c, d = tup  # f-statistics on (a, b; c, d)
+    return float(a in B and c in B and b not in B and d not in B) - float(
+        a in B and d in B and b not in B and c not in B)
+
+
+def tuple_stat(spec, name, sets, indexes, windows, mode, span_normalise):
+    """Docstring definitions of diversity/divergence/Y1-3/f2-4 (unpolarised, site or branch mode):
+    average over sample tuples of the number of alleles (area of branches) inherited by exactly the
+    stated members of the tuple.  Returns (result, degenerate columns)."""
+    nw = len(windows) - 1
+    idx = [tuple(t) for t in indexes]
+    out = np.zeros((nw, len(idx)))
+    tl = [_tuples(name, sets, t) for t in idx]
+    deg = np.array([len(x) == 0 for x in tl])
+    for w, wt, B in carrier_sets(spec, windows, mode, False):
+        for c, tups in enumerate(tl):
+            if not tups:
+                continue
+            out[w, c] += wt * sum(_pattern(name, tup, B) for tup in tups) / len(tups)
+    if span_normalise:
+        for w in range(nw):
+            out[w] /= windows[w + 1] - windows[w]
+    return out, deg
+
+
+def genotype_diversity(spec, sets, indexes, windows, span_normalise):
+    """Site diversity/divergence as the mean number of sites at which two samples carry different
+    alleles (oracle genotypes), independent of allele bookkeeping."""
+    nw = len(windows) - 1
+    smp = model.samples(spec)
+    out = np.zeros((nw, len(indexes)))
+    for j, s in enumerate(spec["sites"]):
+        w = window_of(windows, F(s[0]))
+        if w < 0:
+            continue
+        al = dict(zip(smp, site_alleles(spec, j)))
+        for c, (i, k) in enumerate(indexes):
+            pairs = ([(a, b) for a in sets[i] for b in sets[i] if a != b] if i == k
+                     else [(a, b) for a in sets[i] for b in sets[k]])
+            if pairs:
+                out[w, c] += sum(al[a] != al[b] for a, b in pairs) / len(pairs)
+    if span_normalise:
+        for w in range(nw):
+            out[w] /= windows[w + 1] - windows[w]
+    return out
+
+
+def genotype_segsites(spec, sets, windows, span_normalise):
+    nw = len(windows) - 1
+    smp = model.samples(spec)
+    out = np.zeros((nw, len(sets)))
+    for j, s in enumerate(spec["sites"]):
+        w = window_of(windows, F(s[0]))
+        if w < 0:
+            continue
+        al = dict(zip(smp, site_alleles(spec, j)))
+        for c, X in enumerate(sets):
+            out[w, c] += len({al[u] for u in X}) - 1
+    if span_normalise:
+        for w in range(nw):
+            out[w] /= windows[w + 1] - windows[w]
+    return out
+
+
+def relatedness_pairs(spec, sets, indexes, windows, mode, span_normalise, polarised, centre):
+    """genetic_relatedness docstring: m(I,J) = mean over u in I, v in J of the number of alleles
+    (area of branches) inherited by both; centred: E[m(I,J) - m(I,S) - m(J,T) + m(S,T)] with S, T
+    independent uniform choices among the sample sets."""
+    nw = len(windows) - 1
+    K = len(sets)
+    M = np.zeros((nw, K, K))
+    for w, wt, B in carrier_sets(spec, windows, mode, polarised):
+        p = np.array([sum(u in B for u in X) / len(X) for X in sets])
+        M[w] += wt * np.outer(p, p)
+    out = np.zeros((nw, len(indexes)))
+    for c, (i, j) in enumerate(indexes):
+        if centre:
+            out[:, c] = (M[:, i, j] - M[:, i, :].mean(axis=1) - M[:, j, :].mean(axis=1)
+                         + M.mean(axis=(1, 2)))
+        else:
+            out[:, c] = M[:, i, j]
+    if span_normalise:
+        for w in range(nw):
+            out[w] /= windows[w + 1] - windows[w]
+    return out
+
+
+def tajimas_d(T, S, n):
+    """Docstring formula; T, S with the sample-set axis last.  Returns (D, radicand)."""
+    n = np.asarray(n, dtype=float)
+    with np.errstate(divide="ignore", invalid="ignore"):
+        h = np.array([sum(1 / i for i in range(1, int(nn))) for nn in n])
+        g = np.array([sum(1 / i ** 2 for i in range(1, int(nn))) for nn in n])
+        a = (n + 1) / (3 * (n - 1) * h) - 1 / h ** 2
+        b = 2 * (n ** 2 + n + 3) / (9 * n * (n - 1)) - (n + 2) / (h * n) + g / h ** 2
+        c = h ** 2 + g
+        rad = a * S + (b / c) * S * (S - 1)
+        D = (T - S / h) / np.sqrt(rad)
+    return D, rad
+
+
+# ------------------------------------------------------------------ allele frequency spectrum
+def mirror(c, dims):
+    return tuple(d - 1 - x for x, d in zip(c, dims))
+
+
+def afs_unfolded(spec, sets, windows, mode, polarised, span_normalise):
+    """Direct tabulation following docs/stats.md 'Allele frequency spectrum'.  Site mode: every
+    allelic state of every site (ancestral left out when polarised) inherited by at least one
+    and not all samples of the tree sequence adds 1 (polarised) or one half (unpolarised) at the
+    coordinate (count in set 0, count in set 1, ...).  Branch mode: every branch above at least
+    one and not all samples adds its area.  The unpolarised spectrum returned here is NOT yet
+    folded (see fold_1d / symmetrise)."""
+    nw = len(windows) - 1
+    dims = [len(s) + 1 for s in sets]
+    out = np.zeros([nw] + dims)
+    smp = set(model.samples(spec))
+    N = len(smp)
+    pol_iter = True if mode == "branch" else polarised
+    unit = 1.0 if (mode == "branch" or polarised) else 0.5
+    for w, wt, B in carrier_sets(spec, windows, mode, pol_iter):
+        tot = len(B & smp)
+        if not (0 < tot < N):
+            continue
+        c = tuple(sum(1 for u in s if u in B) for s in sets)
+        out[(w,) + c] += wt * unit
+    if span_normalise:
+        for w in range(nw):
+            out[w] /= windows[w + 1] - windows[w]
+    return out
+
+
+def fold_1d(a):
+    """afs[j] and afs[n-j] both add to entry min(j, n-j)."""
+    a = np.asarray(a, dtype=float)
+    n = a.shape[-1] - 1
+    out = np.zeros(a.shape)
+    for j in range(n + 1):
+        out[..., min(j, n - j)] += a[..., j]
+    return out
+
+
+def symmetrise(a):
+    """Sum of every entry with its mirror image (windows axis first); invariant under any
+    folding rule that moves an allele either to its coordinate or to the mirrored one."""
+    a = np.asarray(a, dtype=float)
+    dims = a.shape[1:]
+    out = np.zeros(a.shape)
+    for c in itertools.product(*[range(d) for d in dims]):
+        mc = mirror(c, dims)
+        if mc == c:
+            out[(slice(None),) + c] = a[(slice(None),) + c]
+        else:
+            out[(slice(None),) + c] = a[(slice(None),) + c] + a[(slice(None),) + mc]
+    return out
+
+
+def upper_half_mask(dims):
+    """Coordinates whose total count exceeds half of the total sample-set size."""
+    half = sum(d - 1 for d in dims) / 2
+    m = np.zeros(dims, dtype=bool)
+    for c in itertools.product(*[range(d) for d in dims]):
+        if sum(c) > half:
+            m[c] = True
+    return m
+
+
+# ------------------------------------------------------------------ weighted statistics
+def trait_covariance(spec, W, windows, mode, span_normalise):
+    W = np.asarray(W, dtype=float)
+    n = W.shape[0]
+    Wc = W - W.mean(axis=0)
+    f = lambda x: x * x / (2 * (n - 1) ** 2)  # noqa: E731
+    return general_stat(spec, Wc, f, W.shape[1], windows, mode, False, span_normalise)[0]
+
+
+def trait_correlation(spec, W, windows, mode, span_normalise):
+    W = np.asarray(W, dtype=float)
+    n, k = W.shape
+    Wn = (W - W.mean(axis=0)) / np.std(W, axis=0, ddof=1)
+    WW = np.column_stack([Wn, np.ones(n)])
+
+    def f(x):
+        cnt = x[k]
+        if cnt <= 0.5 or cnt >= n - 0.5:  # the printed formula is 0/0 there; strictness: f(0)=f(n)=0
+            return np.zeros(k)
+        return x[:k] ** 2 / (2 * cnt * (1 - cnt / n) * (n - 1))
+
+    return general_stat(spec, WW, f, k, windows, mode, False, span_normalise)[0]
+
+
+def relatedness_weighted(spec, W, indexes, windows, mode, span_normalise, polarised, centre):
+    W = np.asarray(W, dtype=float)
+    n, k = W.shape
+    tot = W.sum(axis=0)
+    WW = np.column_stack([W, np.full(n, 1.0 / n)])
+
+    def f(x):
+        p = x[k]
+        if centre:
+            return np.array([(x[i] - tot[i] * p) * (x[j] - tot[j] * p) for i, j in indexes])
+        return np.array([x[i] * x[j] for i, j in indexes])
+
+    return general_stat(spec, WW, f, len(indexes), windows, mode, polarised, span_normalise)[0]
+
+
+def linear_model_b1sq(g, w, Z):
+    """Squared coefficient of g in the least-squares fit w ~ 1 + g + Z (docstring of
+    trait_linear_model); 0 when g lies in the span of [1, Z].  Returns (b1^2, |residual of g|^2)."""
+    n = len(g)
+    X0 = np.column_stack([np.ones(n)] + ([Z] if Z is not None and Z.shape[1] else []))
+    coef = np.linalg.lstsq(X0, g, rcond=None)[0]
+    r = g - X0 @ coef
+    rr = float(r @ r)
+    if rr < 1e-9:
+        return 0.0, rr
+    X = np.column_stack([g, X0])
+    b = np.linalg.lstsq(X, w, rcond=None)[0]
+    return float(b[0] ** 2), rr
+
+
+def trait_linear_model(spec, W, Z, windows, mode, span_normalise):
+    """Returns (result, min nonzero |residual|^2 met) by direct least squares per allele /
+    branch / node."""
+    W = np.asarray(W, dtype=float)
+    n, k = W.shape
+    Zm = None if Z is None else np.asarray(Z, dtype=float).reshape(n, -1)
+    worst = [np.inf]
+    cache = {}
+
+    def b1(gkey):
+        if gkey not in cache:
+            g = np.array(gkey, dtype=float)
+            vals = []
+            for c in range(k):
+                v, rr = linear_model_b1sq(g, W[:, c], Zm)
+                if rr >= 1e-9:
+                    worst[0] = min(worst[0], rr)
+                vals.append(v / 2)
+            cache[gkey] = np.array(vals)
+        return cache[gkey]
+
+    def f(x):  # x = indicator counts per sample (identity weights)
+        return b1(tuple(int(round(v)) for v in x))
+
+    I = np.eye(n)
+    out = general_stat(spec, I, f, k, windows, mode, False, span_normalise)[0]
+    return out, worst[0]
+
+
+def relatedness_matrix_nodes(spec, nodes, windows, mode, span_normalise, polarised=True):
+    """Uncentred C[w, i, b] = total weight of alleles / area of branches inherited by both
+    nodes[i] and sample b."""
+    smp = model.samples(spec)
+    nw = len(windows) - 1
+    C = np.zeros((nw, len(nodes), len(smp)))
+    for w, wt, B in carrier_sets(spec, windows, mode, polarised):
+        rows = np.array([1.0 if u in B else 0.0 for u in nodes])
+        cols = np.array([1.0 if u in B else 0.0 for u in smp])
+        C[w] += wt * np.outer(rows, cols)
+    if span_normalise:
+        for w in range(nw):
+            C[w] /= windows[w + 1] - windows[w]
+    return C
+
+
+# ------------------------------------------------------------------ (C) divergence_matrix, GNN, mean_descendants
+def divergence_matrix(spec, sets, windows, mode, span_normalise):
+    """D[w, i, j] = divergence between sets i and j (mean over pairs of alleles differing / branch
+    area separating); D[w, i, i] = the same over distinct pairs within set i (nan if |set| < 2)."""
+    K = len(sets)
+    idx = [(i, j) for i in range(K) for j in range(K)]
+    flat, _ = tuple_stat(spec, "divergence", sets, idx, windows, mode, span_normalise)
+    D = flat.reshape(len(windows) - 1, K, K)
+    for i in range(K):
+        if len(sets[i]) < 2:
+            D[:, i, i] = np.nan
+    return D
+
+
+def gnn(spec, focal, ref_sets):
+    """Docstring of genealogical_nearest_neighbours: per tree, walk up from the focal node to the
+    first node that has a reference-set member other than the focal node at or below it; the
+    proportions of the reference sets among those members (focal excluded), averaged over the
+    trees where such a node exists, weighted by span."""
+    out = np.zeros((len(focal), len(ref_sets)))
+    total = np.zeros(len(focal))
+    allref = set(u for s in ref_sets for u in s)
+    for a, b, par in tree_intervals(spec):
+        ch = model.children_of(par)
+        for fi, u in enumerate(focal):
+            p = u
+            found = None
+            while p >= 0:
+                below = [v for v in model.descendants(ch, p) if v in allref and v != u]
+                if below:
+                    found = below
+                    break
+                p = par[p]
+            if found is None:
+                continue
+            total[fi] += b - a
+            for k, s in enumerate(ref_sets):
+                out[fi, k] += (b - a) * sum(1 for v in found if v in s) / len(found)
+    for fi in range(len(focal)):
+        if total[fi] > 0:
+            out[fi] /= total[fi]
+    return out
+
+
+def mean_descendants(spec, ref_sets):
+    """(numerator[node, k], span with any reference member at/below, span with any sample of
+    the tree sequence at/below)."""
+    n = len(spec["nodes"])
+    num = np.zeros((n, len(ref_sets)))
+    den_ref = np.zeros(n)
+    den_smp = np.zeros(n)
+    allref = set(u for s in ref_sets for u in s)
+    smp = set(model.samples(spec))
+    for a, b, par in tree_intervals(spec):
+        ch = model.children_of(par)
+        for v in range(n):
+            below = model.descendants(ch, v)
+            for k, s in enumerate(ref_sets):
+                num[v, k] += (b - a) * sum(1 for x in below if x in s)
+            if any(x in allref for x in below):
+                den_ref[v] += b - a
+            if any(x in smp for x in below):
+                den_smp[v] += b - a
+    return num, den_ref, den_smp
+
+
+# ------------------------------------------------------------------ pair coalescence counts
+def pair_coalescence_counts(spec, sets, indexes, windows, bins, nbins, span_normalise, pair_normalise):
+    """out[w, i, bin] = sum over trees of span x number of sample pairs (one from each set of the
+    index pair; unordered distinct pairs within one set) whose MRCA is a node mapped to `bin`."""
+    nw = len(windows) - 1
+    out = np.zeros((nw, len(indexes), nbins))
+    for a, b, par in tree_intervals(spec):
+        for w in range(nw):
+            ov = overlap(a, b, windows[w], windows[w + 1])
+            if ov <= 0:
+                continue
+            for c, (i, j) in enumerate(indexes):
+                if i == j:
+                    pairs = list(itertools.combinations(sets[i], 2))
+                else:
+                    pairs = list(itertools.product(sets[i], sets[j]))
+                for u, v in pairs:
+                    m = model.mrca(par, u, v)
+                    if m >= 0 and bins[m] >= 0:
+                        out[w, c, bins[m]] += ov
+    for c, (i, j) in enumerate(indexes):
+        tot = len(sets[i]) * (len(sets[i]) - 1) / 2 if i == j else len(sets[i]) * len(sets[j])
+        if pair_normalise:
+            out[:, c, :] = out[:, c, :] / tot if tot > 0 else 0.0
+    if span_normalise:
+        for w in range(nw):
+            out[w] /= windows[w + 1] - windows[w]
+    return out
+
+
+# ------------------------------------------------------------------ LD, KC, RF
+def r2(spec, a, b):
+    """D^2 / (pA qA pB qB) from the oracle genotypes of two biallelic sites (all samples)."""
+    ga = [x != spec["sites"][a][1] for x in site_alleles(spec, a)]
+    gb = [x != spec["sites"][b][1] for x in site_alleles(spec, b)]
+    n = len(ga)
+    fa, fb = sum(ga) / n, sum(gb) / n
+    fab = sum(1 for x, y in zip(ga, gb) if x and y) / n
+    den = fa * fb * (1 - fa) * (1 - fb)
+    D = fab - fa * fb
+    if den == 0:
+        return None
+    return D * D / den
+
+
+def kc_vector(spec, par, lambda_):
+    smp = model.samples(spec)
+    root = [u for u in range(len(par)) if par[u] < 0 and model.num_samples_below(spec, par)[u] > 0]
+    assert len(root) == 1
+    root = root[0]
+    vec = []
+    for i in range(len(smp)):
+        for j in range(i + 1, len(smp)):
+            m = model.mrca(par, smp[i], smp[j])
+            vec.append((1 - lambda_) * model.depth(par, m) + lambda_ * (model.time(spec, root) - model.time(spec, m)))
+    for u in smp:
+        bl = model.time(spec, par[u]) - model.time(spec, u) if par[u] >= 0 else 0.0
+        vec.append((1 - lambda_) * 1 + lambda_ * bl)
+    return np.array(vec)
+
+
+def kc_distance(spec1, par1, spec2, par2, lambda_):
+    d = kc_vector(spec1, par1, lambda_) - kc_vector(spec2, par2, lambda_)
+    return math.sqrt(float(d @ d))
+
+
+def clades(spec, par):
+    """Distinct sample sets below the nodes reachable from the root(s)."""
+    ch = model.children_of(par)
+    ns = model.num_samples_below(spec, par)
+    out = set()
+    for r in range(len(par)):
+        if par[r] < 0 and ns[r] > 0:
+            for u in model.descendants(ch, r):
+                out.add(frozenset(v for v in model.descendants(ch, u) if model.is_sample(spec, v)))
+    return out
